@@ -86,6 +86,7 @@ fn instance(rng: &mut TestRng, n: usize, logical: Vec<(usize, usize)>, access: b
                     .collect()
             },
             edges,
+            batches: vec![],
         },
         fail_pos: 0,
         mutation: None,
@@ -123,6 +124,7 @@ pub fn probe_polynomial() -> bool {
                 .into_iter()
                 .map(|(a, b)| (a, b, Kind::Logic))
                 .collect(),
+            batches: vec![],
         },
         fail_pos: 0,
         mutation: None,
@@ -153,7 +155,7 @@ pub fn families(thorough: bool, seed: u64) -> FamilyResult {
     let mut push = |rng: &mut TestRng, n: usize, logical: Vec<(usize, usize)>, what: String| {
         for k in 0..2 {
             let c = instance(rng, n, logical.clone(), k == 0);
-            let ue = user_edges(n, &c.spec.edges).edges;
+            let ue = user_edges(n, &c.spec.flat_calls()).edges;
             cases.push((root_path_count(n, &ue), c, what.clone()));
         }
     };
@@ -215,7 +217,7 @@ pub fn families(thorough: bool, seed: u64) -> FamilyResult {
             .filter(|_| rng.next_u64() % 100 < pct)
             .collect();
         let c = instance(&mut rng, n, logical, k % 2 == 0);
-        let ue = user_edges(n, &c.spec.edges).edges;
+        let ue = user_edges(n, &c.spec.flat_calls()).edges;
         cases.push((root_path_count(n, &ue), c, format!("dense random #{k} n={n} p={pct}%")));
     }
     cases.sort_by_key(|c| (c.0, c.1.spec.n()));
